@@ -53,3 +53,34 @@ func VerifRouterWANAddrs(r *Router) []net.IP {
 	}
 	return out
 }
+
+// VerifInjectTCP hands a TCP chunk (SYN|ACK flags, given payload) to nic and returns the
+// chunk's tag and string form as they were when it was handed in.
+func VerifInjectTCP(nic NIC, src, dst *net.TCPAddr, payload []byte) (tag, str string) {
+	c := newChunkTCP(src, dst, tcpSYN|tcpACK)
+	c.userData = payload
+	tag, str = c.Tag(), c.String()
+	nic.onInboundChunk(c)
+	return tag, str
+}
+
+// VerifInjectTCPPrepare is like VerifInjectTCP but reports tag and string form through
+// before() ahead of the hand-over (filters forward synchronously).
+func VerifInjectTCPPrepare(src, dst *net.TCPAddr, payload []byte, before func(tag, str string), nic NIC) (string, string) {
+	c := newChunkTCP(src, dst, tcpSYN|tcpACK)
+	c.userData = payload
+	tag, str := c.Tag(), c.String()
+	before(tag, str)
+	nic.onInboundChunk(c)
+	return tag, str
+}
+
+// VerifMetaSink is a NIC that reports network, tag and string form of every chunk.
+type VerifMetaSink struct {
+	VerifSink
+	OnMeta func(network, tag, str string, payload []byte)
+}
+
+func (s *VerifMetaSink) onInboundChunk(c Chunk) {
+	s.OnMeta(c.Network(), c.Tag(), c.String(), c.UserData())
+}
